@@ -235,7 +235,7 @@ impl<T> KanalPtr<T> {
     pub uninterp spec fn has_value(&self) -> bool;
     #[verifier::external_body]
     pub fn new_from(addr: *mut T) -> (r: Self)
-        requires /*@tag:O-slot-manual C05 C13*/ ptr_manual(addr),
+        requires /*@tag:O-slot-manual C05 C13 C03 C18*/ ptr_manual(addr),
         // a slot lent for reading is never written by the peer (R2)
         ensures r.slot() == addr, r.lent() == ptr_val(addr), r.has_value(), !ptr_filled(addr)
     { unimplemented!() }
@@ -279,14 +279,14 @@ impl<T> Signal<T> {
     #[verifier::external_body]
     pub fn wait(&self, Tracked(fx): Tracked<&mut Fx<T>>) -> (b: bool)
         requires may_wait_peer(), self.is_sync(),
-            /*@tag:O-no-wait-under-lock C03 C14 C13*/ !old(fx).held,
+            /*@tag:O-no-wait-under-lock C03 C14 C13 C18*/ !old(fx).held,
         ensures *final(fx) == *old(fx), b == self.delivered(),
             b && big::<T>() ==> ptr_filled(self.slot()) && ptr_fill_val(self.slot()) == received(self.term()),
     { unimplemented!() }
     #[verifier::external_body]
     pub fn wait_timeout(&self, until: Instant, Tracked(fx): Tracked<&mut Fx<T>>) -> (b: bool)
         requires may_wait_peer(),
-            /*@tag:O-no-wait-under-lock C03 C14 C13*/ !old(fx).held,
+            /*@tag:O-no-wait-under-lock C03 C14 C13 C18*/ !old(fx).held,
         ensures *final(fx) == *old(fx), b ==> self.delivered(),
             b && big::<T>() ==> ptr_filled(self.slot()) && ptr_fill_val(self.slot()) == received(self.term()),
             !b ==> reached(until) || self.seen_terminated(),
@@ -309,14 +309,14 @@ impl<T> Signal<T> {
     #[verifier::external_body]
     pub fn async_blocking_wait(&self, Tracked(fx): Tracked<&mut Fx<T>>) -> (b: bool)
         requires may_wait_peer(),
-            /*@tag:O-no-wait-under-lock C03 C14 C15 C16*/ !old(fx).held,
+            /*@tag:O-no-wait-under-lock C03 C14 C15 C16 C18*/ !old(fx).held,
         ensures *final(fx) == *old(fx), b == self.delivered(),
             b && big::<T>() ==> ptr_filled(self.slot()) && ptr_fill_val(self.slot()) == received(self.term()),
     { unimplemented!() }
     /// re-pointing the slot keeps identity, freshness and registered waker
     #[verifier::external_body]
     pub fn set_ptr(&mut self, ptr: KanalPtr<T>)
-        requires /*@tag:O-setptr-unpublished C16 C15*/ old(self).fresh(),
+        requires /*@tag:O-setptr-unpublished C16 C15 C03 C18 C01 C04 C05*/ old(self).fresh(),
         ensures final(self).term() == old(self).term(), final(self).fresh(), final(self).is_sync() == old(self).is_sync(),
             final(self).slot() == ptr.slot(), ptr.has_value() ==> payload(final(self).term()) == ptr.lent(),
             final(self).owns_payload() == ptr.has_value(),
@@ -326,7 +326,7 @@ impl<T> Signal<T> {
     /// the channel lock is held and the signal has been seen in the wait list under that same lock
     #[verifier::external_body]
     pub fn register_waker(&mut self, waker: &Waker, Tracked(fx): Tracked<&mut Fx<T>>)
-        requires /*@tag:O-waker-under-lock C16 C15*/ old(self).fresh() || (old(fx).held && old(fx).cs.len() > 0 && old(fx).cs.last().pre.wait_list@.contains(old(self).term())),
+        requires /*@tag:O-waker-under-lock C16 C15 C03 C18*/ old(self).fresh() || (old(fx).held && old(fx).cs.len() > 0 && old(fx).cs.last().pre.wait_list@.contains(old(self).term())),
         ensures final(self).wakes(*waker), final(self).term() == old(self).term(), final(self).fresh() == old(self).fresh(),
             final(self).slot() == old(self).slot(), final(self).is_sync() == old(self).is_sync(), *final(fx) == *old(fx),
             final(self).owns_payload() == old(self).owns_payload(),
@@ -336,7 +336,7 @@ impl<T> Signal<T> {
     /// T8 (sender side, small T): drops the value still stored in the signal
     #[verifier::external_body]
     pub unsafe fn load_and_drop(&self, Tracked(fx): Tracked<&mut Fx<T>>)
-        requires /*@tag:O-size-dispatch C04 C05*/ !big::<T>(),
+        requires /*@tag:O-size-dispatch C04 C05 C03 C18*/ !big::<T>(),
         ensures final(fx).sig_drops == old(fx).sig_drops + 1, final(fx).cs == old(fx).cs, final(fx).same_effects_but_local(*old(fx)),
             final(fx).local_drops == old(fx).local_drops, final(fx).local_reads == old(fx).local_reads, final(fx).held == old(fx).held, final(fx).listed == old(fx).listed,
     { unimplemented!() }
@@ -344,7 +344,7 @@ impl<T> Signal<T> {
     /// value a never-published sender signal still owns
     #[verifier::external_body]
     pub unsafe fn assume_init(&self) -> (r: T)
-        requires /*@tag:O-evidence-before-read C04 C16 C01*/ self.delivered() || self.owns_payload(), /*@tag:O-size-dispatch C04 C05*/ !big::<T>(),
+        requires /*@tag:O-evidence-before-read C04 C16 C01 C03 C18*/ self.delivered() || self.owns_payload(), /*@tag:O-size-dispatch C04 C05 C03 C18*/ !big::<T>(),
         ensures self.owns_payload() ==> r == payload(self.term()), !self.owns_payload() ==> r == received(self.term())
     { unimplemented!() }
 }
@@ -353,7 +353,7 @@ impl<T> SignalTerminator<T> {
     /// T2
     #[verifier::external_body]
     pub unsafe fn send(self, data: T, Tracked(fx): Tracked<&mut Fx<T>>)
-        requires /*@tag:O-own-pop C01 C03 C05 C04*/ old(fx).used.count((self, Role::Receiver)) < old(fx).popped.count((self, Role::Receiver)),
+        requires /*@tag:O-own-pop C01 C03 C05 C04 C18*/ old(fx).used.count((self, Role::Receiver)) < old(fx).popped.count((self, Role::Receiver)),
         ensures final(fx).used == old(fx).used.insert((self, Role::Receiver)), final(fx).sent == old(fx).sent.push((self, data)),
             final(fx).popped == old(fx).popped, final(fx).cs == old(fx).cs, final(fx).taken == old(fx).taken,
             final(fx).terminated == old(fx).terminated, final(fx).held == old(fx).held, final(fx).listed == old(fx).listed,
@@ -362,7 +362,7 @@ impl<T> SignalTerminator<T> {
     /// T3
     #[verifier::external_body]
     pub unsafe fn recv(self, Tracked(fx): Tracked<&mut Fx<T>>) -> (r: T)
-        requires /*@tag:O-own-pop C01 C03 C05 C04*/ old(fx).used.count((self, Role::Sender)) < old(fx).popped.count((self, Role::Sender)),
+        requires /*@tag:O-own-pop C01 C03 C05 C04 C18*/ old(fx).used.count((self, Role::Sender)) < old(fx).popped.count((self, Role::Sender)),
         ensures r == payload(self),
             final(fx).used == old(fx).used.insert((self, Role::Sender)), final(fx).taken == old(fx).taken.push(self),
             final(fx).popped == old(fx).popped, final(fx).cs == old(fx).cs, final(fx).sent == old(fx).sent,
@@ -405,7 +405,7 @@ pub uninterp spec fn cptr_init<T>(p: *const T) -> bool;
 pub uninterp spec fn cptr_val<T>(p: *const T) -> T;
 #[verifier::external_body]
 pub unsafe fn raw_ptr_read<T>(p: *const T) -> (r: T)
-    requires /*@tag:O-read-init C04 C05 C16*/ cptr_init(p),
+    requires /*@tag:O-read-init C04 C05 C16 C03 C18*/ cptr_init(p),
     ensures r == cptr_val(p)
 { unimplemented!() }
 pub assume_specification<T> [core::mem::MaybeUninit::<T>::as_ptr] (_0: &core::mem::MaybeUninit<T>) -> (r: *const T)
